@@ -22,6 +22,10 @@ var sameFileDocs = []string{
 	"JSIGHT 0.3\nINFO\n  Title \"The \\\"Cats\\\" API\"\n  Version \"1.0\\\\beta\"\nSERVER @s\n  BaseUrl \"https://x.y/\\\\z\"\nGET \"/cats/{id}\" // \"one\" cat\n  Query \"a=\\\"1\\\"\"\n    {}\n  200 any\n" +
 		"URL \"/r\"\n  Protocol \"json-rpc-2.0\"\n  Method \"say \\\"hi\\\"\"\n    Params\n      {}\n  Method \"dir\\\\name\"\n    Result\n      {}\n",
 	"JSIGHT 0.3\nTAG \"@t\" // \"quoted \\ title\"\nGET \"/a\"\n  Tags \"@t\"\n  200 \"any\"\nPOST \"/a\"\n  Request \"any\"\n  200 \"empty\"\n",
+	// regular-expression types and bodies: their examples come from a generator per schema; the same patterns in every goroutine
+	"JSIGHT 0.3\nTYPE @code regex\n  /[a-z]{5}-[0-9]{3}/\nTYPE @word regex\n  /(foo|bar|baz){2,4}[A-Z]+/\nGET /r\n  200 @code\nPOST /r\n  Request regex\n    /[0-9a-f]{8}-[0-9a-f]{4}/\n  200 regex\n    /(yes|no|maybe)+/\nPUT /r\n  Request @word\n  200 any\n",
+	// a description with CRLF line ends in a macro pasted twice, enums, a Path
+	"JSIGHT 0.3\r\nMACRO @d\r\n(\r\n  Description\r\n    first line\r\n    second line\r\n\r\n    third\r\n)\r\nENUM @e\r\n  [\"a\", \"b\"]\r\nURL /p/{id}\r\n  Path\r\n    {\r\n      \"id\": \"a\" // {enum: @e}\r\n    }\r\n  GET\r\n    PASTE @d\r\n    200 any\r\n  POST\r\n    PASTE @d\r\n    200 any\r\n",
 }
 
 func runFile(f *fs.File) (out []byte, ok bool) {
@@ -90,7 +94,7 @@ func stressSameFile(rep *stressReport, files []fixture, n int, dur time.Duration
 					got, ok := runFile(d.f)
 					atomic.AddInt64(&runs, 1)
 					if !ok || !bytes.Equal(got, d.solo) {
-						if ok && differOnlyInExamples(got, d.solo) {
+						if ok && knownExampleOnly(got, d.solo) {
 							continue
 						}
 						once.Do(func() {
@@ -110,7 +114,7 @@ func stressSameFile(rep *stressReport, files []fixture, n int, dur time.Duration
 			rep.violate("samefile", fmt.Sprintf("the library wrote into the text it was given (byte %d): now ...%s... was ...%s...", i, around([]byte(d.f.Content()), i), around(d.orig, i)), d.name)
 		}
 		// and once more afterwards, alone
-		if got, ok := runFile(d.f); !ok || !(bytes.Equal(got, d.solo) || differOnlyInExamples(got, d.solo)) {
+		if got, ok := runFile(d.f); !ok || !(bytes.Equal(got, d.solo) || knownExampleOnly(got, d.solo)) {
 			rep.violate("samefile", "the same fs.File processed again AFTER the concurrent runs no longer gives its result", d.name)
 		}
 	}
